@@ -96,11 +96,19 @@ func expectDecl(out map[string]*schema_j5pb.RootSchema, pkg, schemaName string, 
 }
 
 func expectProp(out map[string]*schema_j5pb.RootSchema, pkg, parent string, f *Field, num int32) *schema_j5pb.ObjectProperty {
+	desc := f.Desc
+	leaf := f.T
+	for leaf.K == TArray || leaf.K == TMap {
+		leaf = leaf.Elem
+	}
+	if inl := leaf.Inline; desc == "" && inl != nil && len(inl.Desc) > 0 {
+		desc = strings.Join(inl.Desc, "\n")
+	}
 	return &schema_j5pb.ObjectProperty{
 		Name:               f.Name,
 		Required:           f.Required,
 		ExplicitlyOptional: f.Optional,
-		Description:        f.Desc,
+		Description:        desc,
 		ProtoField:         []int32{num},
 		Schema:             expectField(out, pkg, parent, f, f.T),
 	}
@@ -239,6 +247,7 @@ func expectFieldRS(out map[string]*schema_j5pb.RootSchema, pkg, parent string, f
 			full := parent + "_" + name
 			cp := *t.Inline
 			cp.Name = full
+			cp.Desc = nil // a description at the top of an inline body belongs to the field
 			expectDecl(out, pkg, full, &cp)
 			ref = &schema_j5pb.Ref{Package: pkg, Schema: full}
 		}
@@ -346,7 +355,7 @@ func expectEntity(out map[string]*schema_j5pb.RootSchema, pkg string, e *Entity)
 			if k.Tenant != "" {
 				ek.TenantKey = &k.Tenant
 			}
-			if ek.Type != nil || ek.TenantKey != nil || k.Primary != nil || k.ShardKey {
+			if ek.Type != nil || ek.TenantKey != nil || k.Primary != nil {
 				kf.Entity = ek
 			}
 		}
